@@ -46,6 +46,8 @@ type lockingStream struct {
 	voteDelay int
 	// tokens whose weight is raised by the next request batch (follow-up of a directed partial unlock)
 	raiseNext [][]byte
+	// exitBias: favour validators leaving with unclaimed rewards (export profiles)
+	exitBias bool
 }
 
 func init() {
@@ -326,6 +328,27 @@ func (s *lockingStream) genReq(r *tr.Rng) *tr.Op {
 			s.uid++
 			unlocks = append(unlocks, fmt.Sprintf("%d|%x|%x|%x|%s", s.uid, v.addr, r.Bytes(20), tk, out.String()))
 			s.raiseNext = append(s.raiseNext, tk)
+			break
+		}
+	}
+	// a validator leaves with everything it has locked while rewards are still unclaimed: the record stays (inactive, nothing
+	// locked) and so does the claim (C12: the accrued amounts are paid by a later claim, also after a restart from an export)
+	if r.Chance(pick(s.exitBias, 30, 5)) && len(s.vals) > 1 {
+		for _, v := range s.vals[1:] {
+			val, err := s.w.Lock.Validators.Get(s.w.Ctx, v.addr)
+			if err != nil || len(val.Locking) == 0 || !(val.Reward.IsPositive() || val.GasReward.IsPositive()) ||
+				(val.Status != lockingtypes.Active && val.Status != lockingtypes.Pending) {
+				continue
+			}
+			for _, c := range val.Locking {
+				for _, t := range s.tokens {
+					if lockingtypes.TokenDenom(common.BytesToAddress(t)) == c.Denom {
+						s.uid++
+						unlocks = append(unlocks, fmt.Sprintf("%d|%x|%x|%x|%s", s.uid, v.addr, r.Bytes(20), t, c.Amount.String()))
+					}
+				}
+			}
+			cls += "+exit-with-unclaimed-reward"
 			break
 		}
 	}
